@@ -80,10 +80,13 @@ func (a *adminAPI) Peers() []ethnode.PeerInfo {
 func (a *adminAPI) NodeInfo() map[string]string {
 	return map[string]string{"enode": "enode://" + a.f.selfID + "@[::]:30303"}
 }
-func (a *adminAPI) AddPeer(u string) bool           { a.f.rec("admin_addPeer " + u); return true }
-func (a *adminAPI) RemovePeer(u string) bool        { a.f.rec("admin_removePeer " + u); return true }
-func (a *adminAPI) AddTrustedPeer(u string) bool    { a.f.rec("admin_addTrustedPeer " + u); return true }
-func (a *adminAPI) RemoveTrustedPeer(u string) bool { a.f.rec("admin_removeTrustedPeer " + u); return true }
+func (a *adminAPI) AddPeer(u string) bool        { a.f.rec("admin_addPeer " + u); return true }
+func (a *adminAPI) RemovePeer(u string) bool     { a.f.rec("admin_removePeer " + u); return true }
+func (a *adminAPI) AddTrustedPeer(u string) bool { a.f.rec("admin_addTrustedPeer " + u); return true }
+func (a *adminAPI) RemoveTrustedPeer(u string) bool {
+	a.f.rec("admin_removeTrustedPeer " + u)
+	return true
+}
 
 type parityAPI struct{ f *fakeChain }
 
@@ -114,7 +117,10 @@ func (a *parityAPI) AddReservedPeer(u string) bool {
 	}
 	return true
 }
-func (a *parityAPI) RemoveReservedPeer(u string) bool { a.f.rec("parity_removeReservedPeer " + u); return true }
+func (a *parityAPI) RemoveReservedPeer(u string) bool {
+	a.f.rec("parity_removeReservedPeer " + u)
+	return true
+}
 
 func newFakeChainNode(f *fakeChain) (ethnode.EthNode, func(), error) {
 	srv := rpc.NewServer()
@@ -261,7 +267,9 @@ func c18RPC(ev *vlib.Evidence, idx int) {
 		reported = req.PeerInfo
 		return &pool.UpdateResponse{ActivePeers: append([]string{}, active...), InvalidPeers: append([]string{}, invalid...)}, nil
 	}
-	sp.nextPeer = func(req pool.PeerRequest) (*pool.PeerResponse, error) { return &pool.PeerResponse{Peers: newHosts}, nil }
+	sp.nextPeer = func(req pool.PeerRequest) (*pool.PeerResponse, error) {
+		return &pool.PeerResponse{Peers: newHosts}, nil
+	}
 	a := &agent.Agent{EthNode: node, NumHosts: target, StrictPeers: strict, UpdateInterval: time.Hour}
 	f.take()
 	if err := a.Start(sp); err != nil {
